@@ -269,7 +269,11 @@ Proof.
   cbn [parse_go]. rewrite Hsl, Hst, Hco, Hb. rewrite (parse_go_inseg seg Hs). reflexivity.
 Qed.
 
-(** * Part 2 — the search of the index finds what the specification says *)
+(** * Part 2 — the search of the index finds what the specification says
+
+    (the lemma names [repaired_...] date from before fix e897fef was applied: they are about
+    [find_in false] / [tree_find true true true], which is the code as it is NOW; the lemmas
+    about [find_in true] / [tree_find false false false] are about the pinned code) *)
 
 Section Search.
 Variable V : Type.
@@ -277,12 +281,12 @@ Variable can_add : list V -> V -> bool.
 Notation db := (db V).
 Notation matcher := (matcher V).
 
-(** the repaired search, any index state, any matcher *)
+(** the search as it is now (since fix e897fef), any index state, any matcher *)
 Theorem repaired_find_is_spec (d : db) path (m : matcher) :
   wf_db V d -> find_in false d path m = spec_lookup d path m.
 Proof. intros (H1 & H2 & _). apply find_is_spec; assumption. Qed.
 
-(** the code as it is, outside finding C02-F1 *)
+(** the pinned code (before fix e897fef), outside finding C02-F1 *)
 Theorem find_is_spec_guarded (d : db) path (m : matcher) :
   wf_db V d -> cond_only m -> guard_F1 d path m = false ->
   find_in true d path m = spec_lookup d path m.
@@ -307,7 +311,8 @@ Section TreeSearch.
 Variable V : Type.
 Notation matcher := (matcher V).
 
-(** the repaired findNode on any well-formed tree: the specification on the tree's content *)
+(** findNode as it is now (since e897fef / 88da16a / 16cf34b) on any well-formed tree: the
+    specification on the tree's content *)
 Theorem tree_repaired_find_is_spec (m : matcher) (t : tree V) path :
   wfb t = true -> tree_find true true true m t path = spec_lookup (abs t) path m.
 Proof.
@@ -315,8 +320,8 @@ Proof.
   apply find_is_spec; [apply abs_NoDup; assumption | apply abs_nonempty].
 Qed.
 
-(** findNode as it is, capture-independent conditions, outside C02-F1: the value (and
-    key names) the specification gives *)
+(** the pinned findNode (before e897fef / 88da16a / 16cf34b), capture-independent conditions,
+    outside C02-F1: the value (and key names) the specification gives *)
 Theorem tree_find_is_spec_guarded (m : matcher) (t : tree V) path :
   cond_only m -> wfb t = true -> guard_F1 (abs t) path m = false ->
   found_strip V (tree_find false false false m t path) = found_strip V (spec_lookup (abs t) path m).
@@ -860,4 +865,23 @@ Proof.
   intros HP Hnd Ha Ha'. rewrite !tree_find_rule_is_spec. unfold spec_find_rule. f_equal.
   rewrite <- !(repaired_find_is_spec rval _ path m) by (apply load_rulesets_wf; apply wf_db_nil).
   apply rulesets_order_independent; assumption.
+Qed.
+
+(** non-vacuity of [tree_rulesets_order_independent]: two rule sets (on disjoint expressions —
+    by [all_accepted] and the values constraint two accepted sets never share an expression)
+    accepted in both orders; the lookup goes through three expressions of both sets *)
+Definition OI_sets : list (nat * list rule_def) :=
+  [(1, [{| r_id := 1; r_bt := true; r_routes := [ex_str "/a/:x"] |}; {| r_id := 2; r_bt := true; r_routes := [ex_str "/a/b"] |}]);
+   (2, [{| r_id := 3; r_bt := true; r_routes := [ex_str "/:y/b"] |}])].
+Definition OI_only (ok : list nat) : matcher rval := fun v _ _ => existsb (Nat.eqb (fst v)) ok.
+
+Example rulesets_order_nonvacuous :
+  Permutation OI_sets (rev OI_sets) /\ NoDup (map fst OI_sets) /\
+  all_accepted [] OI_sets = true /\ all_accepted [] (rev OI_sets) = true /\
+  tree_find_rule (tree_load_rulesets empty_tree OI_sets) false (ex_str "/a/b") (OI_only [3]) = ORule 3 /\
+  tree_find_rule (tree_load_rulesets empty_tree (rev OI_sets)) false (ex_str "/a/b") (OI_only [3]) = ORule 3 /\
+  tree_find_rule (tree_load_rulesets empty_tree (rev OI_sets)) false (ex_str "/a/b") (OI_only [1; 3]) = ORule 1.
+Proof.
+  split; [apply Permutation_rev|]. split; [repeat constructor; cbn; intuition discriminate|].
+  vm_compute. repeat split.
 Qed.
